@@ -104,6 +104,48 @@ func (bc *boundaryChecker) asciiAt(f eng.Fact, s ssa.Value, match func(idx ssa.V
 			}
 		}
 	}
+	// a classifier with constant extra arguments (hasByteClass(s[i], classBreak)): evaluated for every byte
+	if call, ok := f.Cond.(*ssa.Call); ok && f.Pos && len(call.Call.Args) > 1 {
+		cal := eng.StaticCallee(call)
+		if cal == nil || !eng.InModule(cal) || cal.Blocks == nil || len(cal.Params) != len(call.Call.Args) {
+			return false
+		}
+		at := -1
+		args := make([]any, len(call.Call.Args))
+		for i, a := range call.Call.Args {
+			if idx, ok := lookupOf(a); ok && match(idx) && at < 0 {
+				at = i
+				continue
+			}
+			k, isC := eng.ConstInt(a)
+			if !isC {
+				return false
+			}
+			args[i] = k
+		}
+		if at < 0 {
+			return false
+		}
+		n := 0
+		for b := 0; b < 256; b++ {
+			args[at] = int64(b)
+			ev := eng.NewEvaluator()
+			ev.Steps = 20000
+			got, err := ev.Call(cal, args, 0)
+			if err != nil {
+				return false
+			}
+			if yes, isB := got.(bool); !isB {
+				return false
+			} else if yes {
+				if b >= 0x80 {
+					return false
+				}
+				n++
+			}
+		}
+		return n > 0
+	}
 	return false
 }
 
